@@ -563,7 +563,7 @@ theorem collect_mono {β γ : Type} {f : Item → List β} {g : Item → List γ
             List.mem_flatten.mpr ⟨_, List.mem_map.mpr ⟨it, hit, rfl⟩, h it hu2⟩⟩⟩
     · exact List.mem_append.mpr (Or.inr (ih hu))
 
-theorem itemUris_sub_itemUsed {u : Cps} (hs : u ≠ star) (it : Item) (h : u ∈ itemUris it) : u ∈ itemUsed it := by
+theorem itemUris_sub_itemUsed {u : Cps} (it : Item) (h : u ∈ itemUris it) : u ∈ itemUsed it := by
   cases it with
   | q k ns name =>
     cases ns with
@@ -573,15 +573,15 @@ theorem itemUris_sub_itemUsed {u : Cps} (hs : u ≠ star) (it : Item) (h : u ∈
       · simp [hv] at h
       · simp only [hv, if_false, List.mem_singleton] at h
         subst h
-        cases k <;> simp [itemUsed, hs]
+        simp [itemUsed]
     | none => simp [itemUris] at h
     | any => simp [itemUris] at h
   | bareAttr n => simp [itemUris] at h
   | other v s => simp [itemUris] at h
 
-theorem usedUris_sub_usedStrs {s : Sheet} {u : Cps} (hs : u ≠ star) (h : u ∈ usedUris s) : u ∈ usedStrs s := by
+theorem usedUris_sub_usedStrs {s : Sheet} {u : Cps} (h : u ∈ usedUris s) : u ∈ usedStrs s := by
   rw [usedStrs_eq_collect]
-  exact collect_mono (itemUris_sub_itemUsed hs) h
+  exact collect_mono itemUris_sub_itemUsed h
 
 /-- `collect f` only looks at the rules that are not @namespace rules -/
 theorem collect_bodyRules {β : Type} (f : Item → List β) (s : Sheet) : collect f (bodyRules s) = collect f s := by
@@ -605,12 +605,11 @@ theorem collect_bodyRules {β : Type} (f : Item → List β) (s : Sheet) : colle
 
 /-! ## the invariant -/
 
-/-- the reachable, consistent sheets: one rule per prefix, one rule per URI, every URI a selector refers to is
+/-- the consistent sheets: one rule per prefix, one rule per URI, every URI a selector refers to is
 declared (`''` needs no declaration) -/
 structure Good (s : Sheet) : Prop where
   pfxNodup : ((nsPairs s).map (·.1)).Nodup
   uriNodup : (nsUris s).Nodup
-  noStar : star ∉ nsUris s
   declared : ∀ u ∈ usedUris s, u ∈ nsUris s
 
 theorem Good.view_eq {s : Sheet} (h : Good s) : view s = (nsPairs s).reverse :=
@@ -694,14 +693,12 @@ theorem Good.of_pairs_sublist {s s' : Sheet} (h : Good s) (hp : (nsPairs s').Sub
     (hd : ∀ u ∈ usedUris s', u ∈ nsUris s') : Good s' where
   pfxNodup := (hp.map _).nodup h.pfxNodup
   uriNodup := (hp.map _).nodup h.uriNodup
-  noStar := fun hx => h.noStar ((hp.map _).subset hx)
   declared := hd
 
 /-- a used URI has exactly one declaration in a Good sheet, so `deleteRule` refuses to delete its rule -/
 theorem Good.blocked {s : Sheet} (h : Good s) {u : Cps} (hu : u ∈ usedUris s) : delBlocked s u = true := by
   have hd := h.declared u hu
-  have hs : u ≠ star := fun e => h.noStar (e ▸ hd)
-  have h1 := usedUris_sub_usedStrs hs hu
+  have h1 := usedUris_sub_usedStrs hu
   have h2 : (nsUris s).count u = 1 := count_eq_one_of_mem h.uriNodup hd
   simp [delBlocked, h1, h2]
 
@@ -871,7 +868,6 @@ theorem Good.of_same_pairs {s s' : Sheet} (h : Good s) (hp : nsPairs s' = nsPair
     (hd : ∀ u ∈ usedUris s', u ∈ usedUris s ∨ u ∈ nsUris s) : Good s' where
   pfxNodup := by rw [hp]; exact h.pfxNodup
   uriNodup := by simpa [nsUris, hp] using h.uriNodup
-  noStar := by simpa [nsUris, hp] using h.noStar
   declared := by
     intro u hu
     have : u ∈ nsUris s := by
@@ -945,7 +941,6 @@ theorem good_setPrefix {pre post : Sheet} {n : NsRule} {q : Cps} (h : Good (pre 
     · subst hb; intro e; subst e; exact hq1 ha
     · exact h3 a ha b (List.mem_cons_of_mem _ hb)
   uriNodup := by simpa [nsUris, nsPairs_append, NsRule.setPrefix] using h.uriNodup
-  noStar := by simpa [nsUris, nsPairs_append, NsRule.setPrefix] using h.noStar
   declared := by
     intro u hu
     have hu' : u ∈ usedUris (pre ++ .ns n :: post) := by simpa [usedUris, collect_append] using hu
@@ -980,7 +975,7 @@ theorem usedUris_insertAt_ns (s : Sheet) (i : Nat) (r : NsRule) : usedUris (inse
 
 /-- the clean-up, when it goes through, produces a consistent sheet from any sheet whose (prefix, URI) pairs are
 distinct and whose used URIs are declared by some rule -/
-theorem good_clean {s1 : Sheet} (hnd : (nsPairs s1).Nodup) (hstar : star ∉ nsUris s1)
+theorem good_clean {s1 : Sheet} (hnd : (nsPairs s1).Nodup)
     (hdecl : ∀ u ∈ usedUris s1, u ∈ nsUris s1) (hc : (cleanNamespaces s1).2 = false) :
     Good (cleanNamespaces s1).1 := by
   have hs1 : (cleanNamespaces s1).1 = s1.filter (keep (view s1)) := by
@@ -991,13 +986,7 @@ theorem good_clean {s1 : Sheet} (hnd : (nsPairs s1).Nodup) (hstar : star ∉ nsU
     intro e he; simpa using (List.mem_filter.mp he).2
   have hk := viewOfPairs_keys_nodup (nsPairs s1)
   have hv := viewOfPairs_values_nodup (nsPairs s1)
-  have hsub : ∀ u ∈ nsUris (cleanNamespaces s1).1, u ∈ nsUris s1 := by
-    intro u hu
-    rw [hs1] at hu
-    simp only [nsUris, nsPairs_filter_keep, List.mem_map] at hu ⊢
-    obtain ⟨e, he, rfl⟩ := hu
-    exact ⟨e, (List.mem_filter.mp he).1, rfl⟩
-  refine ⟨?_, ?_, ?_, ?_⟩
+  refine ⟨?_, ?_, ?_⟩
   · rw [hs1, nsPairs_filter_keep]
     apply nodup_map_of_inj_on hkept_nd
     intro a ha b hb hab
@@ -1015,7 +1004,6 @@ theorem good_clean {s1 : Sheet} (hnd : (nsPairs s1).Nodup) (hstar : star ∉ nsU
     have : a.1 = b.1 := Dict.key_unique_of_values_nodup hv (k1 := a.1) (k2 := b.1) (v := a.2) h1
       (by rw [hab]; exact h2)
     exact Prod.ext this hab
-  · exact fun hx => hstar (hsub _ hx)
   · intro u hu
     have hb := cleanGo_body (view s1) [] s1
     have hu1 : u ∈ usedUris s1 := by
@@ -1026,15 +1014,14 @@ theorem good_clean {s1 : Sheet} (hnd : (nsPairs s1).Nodup) (hstar : star ∉ nsU
       rw [← e1, hb, e2] at hu
       exact hu
     have hd0 := hdecl u hu1
-    have hs : u ≠ star := fun e => hstar (e ▸ hd0)
     apply cleanGo_keeps_used (view s1) [] s1 u
-    · simpa using usedUris_sub_usedStrs hs hu1
+    · simpa using usedUris_sub_usedStrs hu1
     · simpa using hd0
 
-theorem good_insert_clean {s : Sheet} {r : NsRule} {i : Nat} (h : Good s) (hstar : r.uri ≠ star)
+theorem good_insert_clean {s : Sheet} {r : NsRule} {i : Nat} (h : Good s)
     (hnew : (r.pfx, r.uri) ∉ nsPairs s) (hc : (cleanNamespaces (insertAt s i (.ns r))).2 = false) :
     Good (cleanNamespaces (insertAt s i (.ns r))).1 := by
-  apply good_clean _ _ _ hc
+  apply good_clean _ _ hc
   · rw [nsPairs_insertAt_ns]
     have h0 : (nsPairs s).Nodup := nodup_of_nodup_map h.pfxNodup
     rw [← nsPairs_take_drop s i] at h0 hnew
@@ -1045,14 +1032,6 @@ theorem good_insert_clean {s : Sheet} {r : NsRule} {i : Nat} (h : Good s) (hstar
     rcases List.mem_cons.mp hb with hb | hb
     · subst hb; intro e; subst e; exact hnew.1 ha
     · exact h0.2.2 a ha b hb
-  · intro hx
-    simp only [nsUris, nsPairs_insertAt_ns, List.map_append, List.map_cons, List.mem_append, List.mem_cons] at hx
-    have hn := h.noStar
-    simp only [nsUris, ← nsPairs_take_drop s i, List.map_append, List.mem_append] at hn
-    rcases hx with h1 | h1 | h1
-    · exact hn (Or.inl h1)
-    · exact hstar h1.symm
-    · exact hn (Or.inr h1)
   · intro u hu
     rw [usedUris_insertAt_ns] at hu
     have hd0 := h.declared u hu
@@ -1063,7 +1042,7 @@ theorem good_insert_clean {s : Sheet} {r : NsRule} {i : Nat} (h : Good s) (hstar
     · exact Or.inr (Or.inr h1)
 
 theorem good_insertNsAt {s : Sheet} {r : NsRule} {index : Nat} {ret : Option Nat} (h : Good s)
-    (hstar : r.uri ≠ star) (hok : (insertNsAt s r index true).2 = .ok ret) : Good (insertNsAt s r index true).1 := by
+    (hok : (insertNsAt s r index true).2 = .ok ret) : Good (insertNsAt s r index true).1 := by
   unfold insertNsAt at hok ⊢
   by_cases hdoub : (view s).get r.pfx = some r.uri
   · simp only [hdoub, if_true]; exact h
@@ -1072,18 +1051,18 @@ theorem good_insertNsAt {s : Sheet} {r : NsRule} {index : Nat} {ret : Option Nat
     by_cases hc : (cleanNamespaces (insertAt s index (Rule.ns r))).2 = true
     · simp [hc] at hok
     · have hc' : (cleanNamespaces (insertAt s index (Rule.ns r))).2 = false := by simpa using hc
-      have hg := good_insert_clean (i := index) h hstar hnew hc'
+      have hg := good_insert_clean (i := index) h hnew hc'
       simp only [hc', Bool.false_eq_true, if_false]
       split <;> exact hg
 
 theorem good_insertNs {s : Sheet} {r : NsRule} {idx : Option Nat} {io : Bool} {ret : Option Nat} (h : Good s)
-    (hstar : r.uri ≠ star) (hok : (insertNs s r idx io true).2 = .ok ret) : Good (insertNs s r idx io true).1 := by
+    (hok : (insertNs s r idx io true).2 = .ok ret) : Good (insertNs s r idx io true).1 := by
   unfold insertNs at hok ⊢
   cases hp : nsPosition s idx io with
   | error e => simp [hp] at hok
   | ok index =>
     simp only [hp] at hok ⊢
-    exact good_insertNsAt h hstar hok
+    exact good_insertNsAt h hok
 
 
 /-! ## the mapping interface -/
@@ -1114,7 +1093,7 @@ theorem findLastNs_some {p : Cps} {s : Sheet} {i : Nat} {n : NsRule} (h : findLa
       | media x => simp at h
       | other x => simp at h
 
-theorem good_setNs {s : Sheet} {p u : Cps} {ret : Option Nat} (h : Good s) (hstar : u ≠ star)
+theorem good_setNs {s : Sheet} {p u : Cps} {ret : Option Nat} (h : Good s)
     (hok : (setNs s p u).2 = .ok ret) : Good (setNs s p u).1 := by
   unfold setNs at hok ⊢
   cases hf : findLastNs p s with
@@ -1125,7 +1104,7 @@ theorem good_setNs {s : Sheet} {p u : Cps} {ret : Option Nat} (h : Good s) (hsta
     · simp only [hu, if_false] at hok ⊢
       cases hr : (insertNs s (mkNs p u) none true true).2 with
       | err e => simp [hr] at hok
-      | ok r => exact good_insertNs h (by simpa [mkNs] using hstar) hr
+      | ok r => exact good_insertNs h hr
   | some x =>
     obtain ⟨i, n⟩ := x
     obtain ⟨pre, post, rfl, rfl, hn⟩ := findLastNs_some hf
@@ -1135,10 +1114,12 @@ theorem good_setNs {s : Sheet} {p u : Cps} {ret : Option Nat} (h : Good s) (hsta
     · rename_i h1
       simp only [h1, if_false]
       split
-      · rw [set_split]
-        apply h.of_same_pairs
-        · simp [nsPairs_append, NsRule.setPrefix, hn]
-        · intro v hv; left; simpa [usedUris, collect_append] using hv
+      · split
+        · exact h
+        · rw [set_split]
+          apply h.of_same_pairs
+          · simp [nsPairs_append, NsRule.setPrefix, hn]
+          · intro v hv; left; simpa [usedUris, collect_append] using hv
       · exact h
 
 theorem good_delNs {s : Sheet} {p : Cps} (h : Good s) : Good (delNs s p).1 := by
@@ -1259,7 +1240,9 @@ theorem body_setNs (s : Sheet) (p u : Cps) : bodyRules (setNs s p u).1 = bodyRul
     split
     · rfl
     · split
-      · rw [set_split]; exact body_set_ns
+      · split
+        · rfl
+        · rw [set_split]; exact body_set_ns
       · rfl
 
 theorem body_deleteRule_ns {s s' : Sheet} {i : Nat} {n : NsRule} (hi : s[i]? = some (.ns n))
@@ -1328,32 +1311,46 @@ theorem setNs_err {s : Sheet} {p u : Cps} {e : Err} (h : (setNs s p u).2 = .err 
     simp only [hf] at h ⊢
     split at h
     · rename_i h1; simp [h1]
-    · split at h <;> simp at h
+    · rename_i h1
+      simp only [h1, if_false]
+      split at h
+      · rename_i h2
+        simp only [h2, if_true]
+        split at h
+        · rename_i h3; simp [h3]
+        · simp at h
+      · simp at h
 
 /-! ## guards of the operations (what the findings listed in known/C15.json exclude) -/
 
+/-- source rules outside the finding C15-namespace-after-variables (no @variables rule) -/
+def SrcOk : SrcRule → Prop
+  | .other .variables => False
+  | _ => True
+
 /-- the operation stays outside the regions in which the code is known to lose consistency:
-* `rule.prefix = q` with a `q` that another @namespace rule of the sheet already carries,
-* a style rule object whose selectors were resolved elsewhere and refer to URIs this sheet does not declare,
-* URIs `*` and `''` in @namespace rules (the first is ignored by the used-URI scan for universal selectors,
-  the second is not modelled),
-* `parse` with a non-empty dict of namespaces, or of a text with an @variables rule (`SrcOk`, defined below
-  for the parse theorem; repeated here). -/
+* a style rule object whose selectors were resolved elsewhere and refer to URIs this sheet does not declare
+  (C15-foreign-style-rule),
+* `parse` with a non-empty dict of namespaces (C15-tuple-namespaces), or of a text with an @variables rule
+  (C15-namespace-after-variables). -/
 def OpOk (s : Sheet) : Op → Prop
-  | .parse init src => init = [] ∧ ∀ r ∈ src, (match r with
-      | .other .variables => False
-      | .ns _ u _ _ _ => u ≠ star
-      | _ => True)
-  | .insNs _ u _ _ => u ≠ star
-  | .insNsText _ u _ _ _ _ _ => u ≠ star
-  | .setNs _ u => u ≠ star
-  | .delNs _ => True
-  | .delRule _ => True
-  | .setPrefix i q => ∀ pre post n, s = pre ++ Rule.ns n :: post → pre.length = i →
-      q ∉ (nsPairs pre).map (·.1) ∧ q ∉ (nsPairs post).map (·.1)
-  | .setSelText _ _ => True
-  | .insStyleText _ _ _ => True
+  | .parse init src => init = [] ∧ ∀ r ∈ src, SrcOk r
   | .insStyleObj sels _ _ => ∀ u ∈ selsUris sels, u ∈ nsUris s
+  | _ => True
+
+theorem anyNsPfx_false {q : Cps} {s : Sheet} (h : anyNsPfx q s = false) : q ∉ (nsPairs s).map (·.1) := by
+  induction s with
+  | nil => simp
+  | cons r t ih =>
+    simp only [anyNsPfx, List.any_cons, Bool.or_eq_false_iff] at h
+    cases r with
+    | ns n =>
+      simp only [decide_eq_false_iff_not] at h
+      simp only [nsPairs_cons_ns, List.map_cons, List.mem_cons, not_or]
+      exact ⟨fun e => h.1 e.symm, ih h.2⟩
+    | style x => simpa [nsPairs] using ih h.2
+    | media x => simpa [nsPairs] using ih h.2
+    | other x => simpa [nsPairs] using ih h.2
 
 /-- a history all of whose steps are `OpOk` -/
 def AllOk : Sheet → List Op → Prop
@@ -1554,39 +1551,108 @@ def allWf (s : Sheet) : Bool := s.all fun r => match r with
 
 /-! ## the serialised @namespace rules stay well-formed -/
 
-/-- if the seq starts with a prefix item, it is the rule's prefix -/
-def NsRule.headOk (n : NsRule) : Bool :=
-  match n.seq with
-  | .pfx p' :: _ => decide (p' = n.pfx)
+def SeqItem.notComment : SeqItem → Bool
+  | .comment => false
   | _ => true
 
-def NsRule.good (n : NsRule) : Bool := n.wf && n.headOk
+/-- the seq without its comments -/
+def seqBody (l : List SeqItem) : List SeqItem := l.filter SeqItem.notComment
+
+@[simp] theorem seqBody_nil : seqBody [] = [] := rfl
+@[simp] theorem seqBody_cons_pfx (p : Cps) (t : List SeqItem) : seqBody (.pfx p :: t) = .pfx p :: seqBody t := rfl
+@[simp] theorem seqBody_cons_uri (u : Cps) (t : List SeqItem) : seqBody (.uri u :: t) = .uri u :: seqBody t := rfl
+@[simp] theorem seqBody_cons_comment (t : List SeqItem) : seqBody (.comment :: t) = seqBody t := rfl
+
+/-- apart from comments the seq is `prefix URI`, or just `URI` for a rule without prefix -/
+def NsRule.good (n : NsRule) : Bool :=
+  decide (seqBody n.seq = [.pfx n.pfx, .uri n.uri]) || (decide (n.pfx = []) && decide (seqBody n.seq = [.uri n.uri]))
+
+theorem NsRule.good_iff (n : NsRule) : n.good = true ↔
+    seqBody n.seq = [.pfx n.pfx, .uri n.uri] ∨ (n.pfx = [] ∧ seqBody n.seq = [.uri n.uri]) := by
+  simp [NsRule.good]
 
 def AllGoodNs (s : Sheet) : Prop := ∀ n, Rule.ns n ∈ s → n.good = true
 
-theorem mkNs_good (p u : Cps) : (mkNs p u).good = true := by
-  by_cases hp : p = [] <;> simp [mkNs, NsRule.good, NsRule.wf, NsRule.headOk, seqCore, hp]
+theorem seqCore_nil : seqCore [] = [] := rfl
 
-theorem mkNsText_good (p u : Cps) (c0 c1 c2 : Bool) : (mkNsText p u c0 c1 c2).good = true := by
-  by_cases hp : p = [] <;> cases c0 <;> cases c1 <;> cases c2 <;>
-    simp [mkNsText, NsRule.good, NsRule.wf, NsRule.headOk, seqCore, hp]
+theorem seqCore_cons_comment (t : List SeqItem) : seqCore (.comment :: t) = seqCore t := by
+  simp [seqCore, List.filter_cons]
+
+theorem seqCore_cons_uri (u : Cps) (t : List SeqItem) : seqCore (.uri u :: t) = .uri u :: seqCore t := by
+  simp [seqCore, List.filter_cons]
 
 theorem seqCore_cons_pfx (x : Cps) (rest : List SeqItem) :
     seqCore (.pfx x :: rest) = (if x = [] then [] else [.pfx x]) ++ seqCore rest := by
   by_cases hx : x = [] <;> simp [seqCore, List.filter_cons, hx]
 
-theorem setPrefix_good {n : NsRule} {q p' : Cps} {rest : List SeqItem} (hg : n.good = true)
-    (hs : n.seq = .pfx p' :: rest) : (n.setPrefix q).good = true := by
-  simp only [NsRule.good, Bool.and_eq_true, NsRule.wf, NsRule.headOk, hs, decide_eq_true_eq] at hg
-  obtain ⟨hw, hh⟩ := hg
-  rw [seqCore_cons_pfx, hh] at hw
-  have hrest : seqCore rest = [.uri n.uri] := by
-    by_cases hp : n.pfx = []
-    · simpa [hp] using hw
-    · simpa [hp] using hw
-  simp only [NsRule.good, Bool.and_eq_true, NsRule.wf, NsRule.headOk, NsRule.setPrefix, hs, List.set_cons_zero,
-    decide_eq_true_eq, and_true]
-  rw [seqCore_cons_pfx, hrest]
+theorem seqCore_eq (l : List SeqItem) : seqCore l = seqCore (seqBody l) := by
+  induction l with
+  | nil => rfl
+  | cons x t ih =>
+    cases x with
+    | comment => rw [seqBody_cons_comment, seqCore_cons_comment, ih]
+    | uri u => rw [seqBody_cons_uri, seqCore_cons_uri, seqCore_cons_uri, ih]
+    | pfx p => rw [seqBody_cons_pfx, seqCore_cons_pfx, seqCore_cons_pfx, ih]
+
+theorem NsRule.good_wf {n : NsRule} (h : n.good = true) : n.wf = true := by
+  unfold NsRule.wf
+  rw [seqCore_eq]
+  rcases (n.good_iff).mp h with h1 | ⟨h1, h2⟩
+  · rw [h1, seqCore_cons_pfx, seqCore_cons_uri, seqCore_nil]; simp
+  · rw [h2, seqCore_cons_uri, seqCore_nil]; simp [h1]
+
+theorem mkNs_good (p u : Cps) : (mkNs p u).good = true := by
+  simp [mkNs, NsRule.good]
+
+theorem mkNsText_good (p u : Cps) (c0 c1 c2 : Bool) : (mkNsText p u c0 c1 c2).good = true := by
+  by_cases hp : p = [] <;> cases c0 <;> cases c1 <;> cases c2 <;>
+    simp [mkNsText, NsRule.good, hp]
+
+theorem seqBody_replaceFirstPfx (q : Cps) (l : List SeqItem) :
+    seqBody (replaceFirstPfx q l) = replaceFirstPfx q (seqBody l) := by
+  induction l with
+  | nil => rfl
+  | cons x t ih => cases x <;> simp [replaceFirstPfx, ih]
+
+theorem seqBody_insertBeforeUri (q : Cps) (l : List SeqItem) :
+    seqBody (insertBeforeUri q l) = insertBeforeUri q (seqBody l) := by
+  induction l with
+  | nil => rfl
+  | cons x t ih => cases x <;> simp [insertBeforeUri, ih]
+
+theorem seqBody_replaceUriSeq (u : Cps) (l : List SeqItem) :
+    seqBody (replaceUriSeq u l) = replaceUriSeq u (seqBody l) := by
+  induction l with
+  | nil => rfl
+  | cons x t ih => cases x <;> simp [replaceUriSeq, ih]
+
+theorem any_isPfx_seqBody (l : List SeqItem) : l.any SeqItem.isPfx = (seqBody l).any SeqItem.isPfx := by
+  induction l with
+  | nil => rfl
+  | cons x t ih => cases x <;> simp [SeqItem.isPfx, ih]
+
+theorem any_isUri_seqBody (l : List SeqItem) : l.any SeqItem.isUri = (seqBody l).any SeqItem.isUri := by
+  induction l with
+  | nil => rfl
+  | cons x t ih => cases x <;> simp [SeqItem.isUri, ih]
+
+/-- `rule.prefix = q` keeps the seq of a rule in shape, whatever the rule looks like -/
+theorem setPrefix_good {n : NsRule} (q : Cps) (hg : n.good = true) : (n.setPrefix q).good = true := by
+  rw [NsRule.good_iff] at hg ⊢
+  left
+  rcases hg with h1 | ⟨_, h2⟩
+  · have ha : n.seq.any SeqItem.isPfx = true := by rw [any_isPfx_seqBody, h1]; simp [SeqItem.isPfx]
+    simp only [NsRule.setPrefix, ha, if_true, seqBody_replaceFirstPfx, h1, replaceFirstPfx]
+  · have ha : n.seq.any SeqItem.isPfx = false := by rw [any_isPfx_seqBody, h2]; simp [SeqItem.isPfx]
+    have hb : n.seq.any SeqItem.isUri = true := by rw [any_isUri_seqBody, h2]; simp [SeqItem.isUri]
+    simp only [NsRule.setPrefix, ha, hb, Bool.false_eq_true, if_false, if_true, seqBody_insertBeforeUri, h2,
+      insertBeforeUri]
+
+theorem replaceUri_good {n : NsRule} (u : Cps) (hg : n.good = true) : (n.replaceUri u).good = true := by
+  rw [NsRule.good_iff] at hg ⊢
+  rcases hg with h1 | ⟨h0, h2⟩
+  · left; simp only [NsRule.replaceUri, seqBody_replaceUriSeq, h1, replaceUriSeq]
+  · right; exact ⟨h0, by simp only [NsRule.replaceUri, seqBody_replaceUriSeq, h2, replaceUriSeq]⟩
 
 theorem cleanGo_sub (items : Dict) (done rest : List Rule) :
     ∀ r ∈ (cleanGo items done rest).1, r ∈ done ++ rest := by
@@ -1659,14 +1725,6 @@ theorem deleteRule_sub {s s' : Sheet} {i : Nat} (h : deleteRule s i = .ok s') : 
     · simp only [Except.ok.injEq] at h; subst h; exact fun r hr => (List.eraseIdx_sublist _ _).subset hr
   · simp only [Except.ok.injEq] at h; subst h; exact fun r hr => (List.eraseIdx_sublist _ _).subset hr
 
-/-- `rule.prefix = …` is reached only on rules whose seq starts with a prefix item
-(what finding C15-prefix-setter-seq excludes); `parse` has no statement here -/
-def SeqOk (s : Sheet) : Op → Prop
-  | .parse _ _ => False
-  | .setPrefix i _ => ∀ n, s[i]? = some (.ns n) → ∃ p' rest, n.seq = .pfx p' :: rest
-  | .setNs p _ => ∀ i n, findLastNs p s = some (i, n) → ∃ p' rest, n.seq = .pfx p' :: rest
-  | _ => True
-
 theorem allGood_insertStyle {s : Sheet} {x : List Sel} (idx : Option Nat) (io : Bool) (h : AllGoodNs s) :
     AllGoodNs (insertStyle s (.style x) idx io).1 := by
   unfold insertStyle
@@ -1691,19 +1749,12 @@ theorem allGood_insertStyle {s : Sheet} {x : List Sel} (idx : Option Nat) (io : 
 
 /-! ## parsing a sheet -/
 
-/-- source rules outside the findings C15-namespace-after-variables (no @variables rule) and C15-star-uri -/
-def SrcOk : SrcRule → Prop
-  | .other .variables => False
-  | .ns _ u _ _ _ => u ≠ star
-  | _ => True
-
 structure PInv (st : PState) : Prop where
   pfx : ((nsPairs st.rules).map (·.1)).Nodup
   dict : ∀ p u, st.dict.get p = some u ↔ (p, u) ∈ nsPairs st.rules
   keys : st.dict.keys.Nodup
   early : st.expected ≤ 2 → st.rules.any Rule.isBody = false ∧ usedUris st.rules = []
   decl : ∀ u ∈ usedUris st.rules, u ∈ nsUris st.rules
-  noStar : star ∉ nsUris st.rules
 
 theorem usedUris_append (a b : Sheet) : usedUris (a ++ b) = usedUris a ++ usedUris b := collect_append _ a b
 
@@ -1728,7 +1779,6 @@ theorem PInv.append_plain {st : PState} (h : PInv st) (k : OKind) (e : Nat)
       rw [usedUris_append] at hu'
       simpa [usedUris] using hu'
     simpa [nsUris, nsPairs_append, nsPairs] using h.decl u this
-  noStar := by simpa [nsUris, nsPairs_append, nsPairs] using h.noStar
 
 theorem PInv.same_rules {st : PState} (h : PInv st) (e : Nat) (he : e ≤ 2 → st.expected ≤ 2) :
     PInv { st with expected := e } where
@@ -1737,7 +1787,6 @@ theorem PInv.same_rules {st : PState} (h : PInv st) (e : Nat) (he : e ≤ 2 → 
   keys := h.keys
   early := fun h2 => h.early (he h2)
   decl := h.decl
-  noStar := h.noStar
 
 theorem usedUris_media (rs : List (List Sel)) : usedUris [.media rs] = (rs.map selsUris).flatten := by
   simp [usedUris, collect]; rfl
@@ -1762,11 +1811,9 @@ theorem PInv.append_body {st : PState} (h : PInv st) (r : Rule) (hr : r.isNs = f
           exact Dict.mem_get_of_nodup h.keys he
         exact List.mem_map.mpr ⟨e, hg, rfl⟩
     simpa [nsUris, nsPairs_append, nsPairs_cons_not [] hr] using this
-  noStar := by simpa [nsUris, nsPairs_append, nsPairs_cons_not [] hr] using h.noStar
 
 
-theorem PInv.add_ns {st : PState} (h : PInv st) (he : st.expected ≤ 2) (n : NsRule) (hn : st.dict.get n.pfx = none)
-    (hs : n.uri ≠ star) :
+theorem PInv.add_ns {st : PState} (h : PInv st) (he : st.expected ≤ 2) (n : NsRule) (hn : st.dict.get n.pfx = none) :
     PInv { rules := st.rules ++ [.ns n], dict := st.dict.set n.pfx n.uri, expected := 2 } where
   pfx := by
     simp only [nsPairs_append, nsPairs_cons_ns, nsPairs_nil, List.map_append, List.map_cons, List.map_nil]
@@ -1810,11 +1857,6 @@ theorem PInv.add_ns {st : PState} (h : PInv st) (he : st.expected ≤ 2) (n : Ns
     have hu' : u ∈ usedUris (st.rules ++ [Rule.ns n]) := hu
     rw [usedUris_append, (h.early he).2] at hu'
     simp [usedUris] at hu'
-  noStar := by
-    have := h.noStar
-    simp only [nsUris, nsPairs_append, nsPairs_cons_ns, nsPairs_nil, List.map_append, List.map_cons, List.map_nil,
-      List.mem_append, List.mem_singleton, not_or] at this ⊢
-    exact ⟨this, fun e => hs e.symm⟩
 
 /-- `_replaceNamespaceURI` on every rule with prefix `p` -/
 def replaceAll (p u : Cps) (rules : Sheet) : Sheet :=
@@ -1863,7 +1905,7 @@ theorem any_isBody_replaceAll (p u : Cps) (rules : Sheet) :
     | _ => rfl
 
 theorem PInv.replace_ns {st : PState} (h : PInv st) (he : st.expected ≤ 2) (p u u0 : Cps)
-    (hn : st.dict.get p = some u0) (hs : u ≠ star) :
+    (hn : st.dict.get p = some u0) :
     PInv { rules := replaceAll p u st.rules, dict := st.dict.set p u, expected := 2 } where
   pfx := by
     have : ((nsPairs (replaceAll p u st.rules)).map (·.1)) = (nsPairs st.rules).map (·.1) := by
@@ -1917,16 +1959,6 @@ theorem PInv.replace_ns {st : PState} (h : PInv st) (he : st.expected ≤ 2) (p 
     simp only [usedUris] at this
     rw [this] at hv'
     simp at hv'
-  noStar := by
-    show star ∉ nsUris (replaceAll p u st.rules)
-    simp only [nsUris, nsPairs_replaceAll, List.map_map, List.mem_map, Function.comp, not_exists, not_and]
-    intro x hx
-    have := h.noStar
-    by_cases hx1 : x.1 = p
-    · simp only [hx1, if_true]; exact fun e => hs e
-    · simp only [hx1, if_false]
-      intro e
-      exact this (List.mem_map.mpr ⟨x, hx, e⟩)
 
 
 theorem parseStyle_uris {d : Dict} {sels : List SSel} {x : List Sel} (h : parseStyle d sels = some x) :
@@ -1951,11 +1983,11 @@ theorem parseStep_inv {st : PState} {r : SrcRule} (h : PInv st) (hr : SrcOk r) :
         simp only [if_true]
         have hb : st.rules.any Rule.isBody = false := (h.early he').1
         simp only [parseAppend, hb, Bool.false_eq_true, if_false]
-        exact h.add_ns he' (mkNsText p u c0 c1 c2) hd hr
+        exact h.add_ns he' (mkNsText p u c0 c1 c2) hd
       | some u0 =>
         have : (some u0 = none) = False := by simp
         simp only [this, if_false]
-        exact h.replace_ns he' p u u0 hd hr
+        exact h.replace_ns he' p u u0 hd
   | style sels =>
     simp only [parseStep]
     cases hp : parseStyle st.dict sels with
@@ -2016,7 +2048,6 @@ theorem PInv.init : PInv { rules := [], dict := [], expected := 0 } where
   keys := by simp [Dict.keys]
   early := fun _ => ⟨rfl, rfl⟩
   decl := by simp [usedUris]
-  noStar := by simp [nsUris]
 
 theorem parseFold_inv (l : List SrcRule) (hl : ∀ r ∈ l, SrcOk r) {st : PState} (h : PInv st) :
     PInv (l.foldl (fun st r => parseStep { st with expected := max 1 st.expected } r) st) := by
@@ -2034,12 +2065,12 @@ theorem good_parseSheet (src : List SrcRule) (hsrc : ∀ r ∈ src, SrcOk r) (hc
   cases src with
   | nil =>
     simp only at hc ⊢
-    exact good_clean (by simp) (by simp [nsUris]) (by simp [usedUris]) hc
+    exact good_clean (by simp) (by simp [usedUris]) hc
   | cons r t =>
     simp only at hc ⊢
     have hinv := parseFold_inv t (fun x hx => hsrc x (List.mem_cons_of_mem _ hx))
       (parseStep_inv PInv.init (hsrc r List.mem_cons_self))
-    exact good_clean (nodup_of_nodup_map hinv.pfx) hinv.noStar hinv.decl hc
+    exact good_clean (nodup_of_nodup_map hinv.pfx) hinv.decl hc
 
 
 /-! ## the final clean-up of `parse` does not raise -/
@@ -2130,5 +2161,100 @@ theorem parse_no_raise (src : List SrcRule) (hsrc : ∀ r ∈ src, SrcOk r) : (p
     have hinv := parseFold_inv t (fun x hx => hsrc x (List.mem_cons_of_mem _ hx))
       (parseStep_inv PInv.init (hsrc r List.mem_cons_self))
     exact clean_no_raise hinv.pfx
+
+
+/-! ## well-formed @namespace rules through `parse` -/
+
+theorem parseAppend_mem (rules : Sheet) (r : Rule) : ∀ x ∈ parseAppend rules r, x ∈ rules ∨ x = r := by
+  intro x hx
+  have happ : x ∈ rules ++ [r] → x ∈ rules ∨ x = r := by
+    intro h
+    rcases List.mem_append.mp h with h | h
+    · exact Or.inl h
+    · exact Or.inr (by simpa using h)
+  unfold parseAppend at hx
+  split at hx
+  · split at hx
+    · simp only [List.mem_singleton] at hx; exact Or.inr hx
+    · exact Or.inl hx
+  · exact happ hx
+  · exact happ hx
+  · split at hx
+    · exact Or.inl hx
+    · exact happ hx
+  · split at hx
+    · exact Or.inl hx
+    · exact happ hx
+  · split at hx
+    · exact Or.inl hx
+    · exact happ hx
+  · exact happ hx
+
+theorem allGood_parseAppend {rules : Sheet} {r : Rule} (h : AllGoodNs rules)
+    (hr : ∀ n, r = .ns n → n.good = true) : AllGoodNs (parseAppend rules r) := by
+  intro n hn
+  rcases parseAppend_mem rules r _ hn with h1 | h1
+  · exact h n h1
+  · exact hr n h1.symm
+
+theorem allGood_parseStep {st : PState} (r : SrcRule) (h : AllGoodNs st.rules) : AllGoodNs (parseStep st r).rules := by
+  have hplain : ∀ k, AllGoodNs (parseAppend st.rules (.other k)) := fun k =>
+    allGood_parseAppend h (fun n e => by cases e)
+  cases r with
+  | ns p u c0 c1 c2 =>
+    simp only [parseStep]
+    split
+    · exact h
+    · simp only
+      split
+      · exact allGood_parseAppend h (fun n e => by cases e; exact mkNsText_good p u c0 c1 c2)
+      · intro n hn
+        obtain ⟨x, hx, hxe⟩ := List.mem_map.mp hn
+        cases x with
+        | ns m =>
+          simp only at hxe
+          by_cases hm : m.pfx = p
+          · simp only [hm, if_true, Rule.ns.injEq] at hxe
+            rw [← hxe]; exact replaceUri_good u (h m hx)
+          · simp only [hm, if_false, Rule.ns.injEq] at hxe
+            rw [← hxe]; exact h m hx
+        | style y => simp at hxe
+        | media y => simp at hxe
+        | other y => simp at hxe
+  | style sels =>
+    simp only [parseStep]
+    cases hp : parseStyle st.dict sels with
+    | none => exact h
+    | some x => exact allGood_parseAppend (r := .style x) h (fun n e => by cases e)
+  | media rs =>
+    simp only [parseStep]
+    exact allGood_parseAppend (r := .media _) h (fun n e => by cases e)
+  | other k =>
+    cases k with
+    | charset => simp only [parseStep]; split; exact h; exact hplain .charset
+    | «import» => simp only [parseStep]; split; exact h; exact hplain .import
+    | variables => simp only [parseStep]; split; exact h; exact hplain .variables
+    | comment => simp only [parseStep]; exact hplain .comment
+    | unknown => simp only [parseStep]; exact hplain .unknown
+    | page => simp only [parseStep]; exact hplain .page
+    | fontface => simp only [parseStep]; exact hplain .fontface
+
+theorem allGood_parseSheet (init : Dict) (src : List SrcRule) : AllGoodNs (parseSheet init src).1 := by
+  unfold parseSheet
+  have hfold : ∀ (l : List SrcRule) (st : PState), AllGoodNs st.rules →
+      AllGoodNs (l.foldl (fun st r => parseStep { st with expected := max 1 st.expected } r) st).rules := by
+    intro l
+    induction l with
+    | nil => intro st h; exact h
+    | cons r t ih => intro st h; exact ih _ (allGood_parseStep r h)
+  have hinit : AllGoodNs ({ rules := [], dict := init, expected := 0 } : PState).rules := by
+    intro n hn; simp at hn
+  have hsub : ∀ s : Sheet, AllGoodNs s → AllGoodNs (cleanNamespaces s).1 := by
+    intro s h n hn
+    have := cleanGo_sub _ [] _ _ hn
+    exact h n (by simpa using this)
+  cases src with
+  | nil => exact hsub _ hinit
+  | cons r t => exact hsub _ (hfold t _ (allGood_parseStep r hinit))
 
 end CssVerif.Ns
